@@ -118,8 +118,8 @@ def random_scalars(rng, n):
 
 CONFIGS = G.CONFIGS
 # the configurations other than the default one run a pair grid over this smaller set
-SMALL = [0, 1, -7, 2 ** 63 + 1, 0.0, -2.5, "", "a", "e\u0301", None, True, False, [1, 2], (1, 2), [],
-         frozenset([1]), frozenset([1, 2]), {2, 3}, {1: 10}, {1: 11, 2: 20}]
+SMALL = [0, -7, 2 ** 63 + 1, 0.0, -2.5, "", "a", "e\u0301", None, True, False, [1, 2], (1, 2),
+         frozenset([1]), frozenset([1, 2]), {1: 10}, {1: 11, 2: 20}]
 
 
 def corpus_values(full, special):
@@ -975,7 +975,8 @@ def oracle_cfg(run, deep, cfg):
     # strings that look like values of other kinds: the ordinary laws (lexicographic order together with =, no
     # match against other kinds, repetition), the literal route, and the rows against real datetimes / timespans
     strs = LOOKALIKE + (LOOKALIKE_MORE if full else [])
-    for s_ in strs:
+    extra_cfg = full or cfg in ("CDefault", "CLegacy")      # quick tier: the two extra corpora on two configurations
+    for s_ in (strs if extra_cfg else []):
         for n, r in check_laws(run, laws, Laws.SINGLE, (s_,)):
             if n not in seen:
                 seen.add(n)
@@ -1000,7 +1001,7 @@ def oracle_cfg(run, deep, cfg):
                     report_special(run, "route", c, r, "lit")
     # operands that are expensive or impossible to render: the error rows must still be 'no matching function',
     # the well-typed rows exact
-    for h in (HARD_INTS + [LONG_STR] if cfg != "CQuota" else []):
+    for h in (HARD_INTS + [LONG_STR] if cfg != "CQuota" and extra_cfg else []):
         for n, r in check_laws(run, laws, Laws.SINGLE, (h,)):
             if n not in seen:
                 seen.add(n)
@@ -1008,7 +1009,7 @@ def oracle_cfg(run, deep, cfg):
         for p_ in [v for v in PARTNERS if v == v] + HARD_INTS + [LONG_STR]:
             pair(h, p_)
             pair(p_, h)
-    for h in (Evil(), deep_list()):
+    for h in ((Evil(), deep_list()) if extra_cfg or cfg == "CIterDicts" else ()):
         for p_ in PARTNERS + (HARD_INTS if cfg != "CQuota" else []):
             run.count("law:opaque_operand")
             r = laws.opaque_operand(h, p_)
@@ -1045,7 +1046,7 @@ def gen_cases(run):
     scal = [v for v in corpus_values(True, special=True) if kind(v) not in ("list", "tuple", "set", "dict")]
     scal += random_scalars(run.rng, run.n(40, 400))
     bsp = [s for _, s in BINARY]
-    for _ in range(run.n(1000, 100000)):
+    for _ in range(run.n(700, 100000)):
         r = run.rng.random()
         if r < 0.5:
             pool = [v for v in scal if family(v) == "num"]
